@@ -101,6 +101,22 @@ pub fn json_to_text(mt: &str, g: &Value) -> Result<String, String> {
     with_type!(mt, T => typed_to_text::<T>(g), Err(format!("unknown type {mt}")))
 }
 
+/// JSON → the typed message itself, wrapped as the auto-detected wrapper would wrap it — a message
+/// that was built in memory (deserialised), never serialised or parsed from text.
+pub fn json_to_typed(mt: &str, g: &Value) -> Result<ParsedSwiftMessage, String> {
+    macro_rules! wrap {
+        ($($code:literal => $V:ident),*) => {
+            match mt {
+                $($code => serde_json::from_value::<SwiftMessage<$V>>(g.clone()).map(|m| ParsedSwiftMessage::$V(Box::new(m))).map_err(|e| format!("json: {e}")),)*
+                _ => Err(format!("unknown type {mt}")),
+            }
+        };
+    }
+    wrap!("101" => MT101, "103" => MT103, "104" => MT104, "107" => MT107, "110" => MT110, "111" => MT111, "112" => MT112, "190" => MT190, "191" => MT191, "192" => MT192, "196" => MT196, "199" => MT199,
+          "200" => MT200, "202" => MT202, "204" => MT204, "205" => MT205, "210" => MT210, "290" => MT290, "291" => MT291, "292" => MT292, "296" => MT296, "299" => MT299,
+          "900" => MT900, "910" => MT910, "920" => MT920, "935" => MT935, "940" => MT940, "941" => MT941, "942" => MT942, "950" => MT950)
+}
+
 /// `validate_network_rules` on the wrapped message body.
 pub fn vnr(p: &ParsedSwiftMessage, stop: bool) -> Vec<SwiftValidationError> {
     on_parsed!(p, m => m.fields.validate_network_rules(stop))
